@@ -15,7 +15,7 @@ func init() {
 			"(A2) every enum decoder's extracted decision table maps each GTFS digit to the constant the reference names; (TIME) H:MM:SS is 3600h+60m+s seconds, linear, without modulo, accumulated in base 10; dates use layout 20060102 in the location handed down, which is the first agency's zone or UTC, and come from nowhere else (no time.Date / Unix / AddDate construction in the static parser); " +
 			"(FILL) a stop time's arrival and departure each keep their own column's value whenever that column is valid (validity is the decoder's flag, never `== 0`); (KEY) a string map key put together from several variable parts keeps them apart with constant text; (A5) the file table binds each supported file name to its parse function with GTFS's optionality, phases respect def-use order, members are looked up by exact name from a map of all archive members; " +
 			"(A4/CSV) the archive member is read only by the csv reader (no raw Read on it before or beside), the CSV reader is created only over the BOM-aware transformer and only ReuseRecord is configured, header names map to their position in the first record and cells are indexed only through that map (column order, extra columns, BOM, quoting, CRLF are the library's business); (NUM) every strconv.ParseInt/ParseUint of the static parser is called with the constant base 10 and every ParseFloat with bit size 64; (SVC) the calendar_dates rules of C11; (DEF) the optional-column readers return the cell of an existing column at any position; (SCAN) no row loop is left by a break; (ROW) no row appends more than one entity; (ROWSTATE) every field of csv.File's per-row object is renewed on every path of NextRow that announces a row, so nothing recorded about one row decides the fate of the next; (G13) reference fields point at entities of the result (the rules of C03); the stop-time capacity pre-allocation never discards collected stop times; (G7) no package-level state. " +
-			"Not decided: numerical correctness of strconv and the digit loop, zip/csv decoding themselves.",
+			"Not decided: numerical correctness of strconv and the digit loop, zip/csv decoding themselves. A number decoder answers no value only for the empty cell or for what strconv rejects, and the csv column accessors answer the cell as read (a constant, the default, or an element of the record).",
 		Rules: []Rule{
 			{Name: "SVC", Doc: "calendar_dates: range extension guards, exception table, write-back (the rules of C11): Service fields carry what the rows say", MinInstances: 5, Run: runServiceRules},
 			{Name: "REJECT", Doc: "a row is kept or rejected for what it says itself: no test that decides a rejection reads a loop-carried variable or a collection the row loop fills (a same-as-previous-row or already-seen guard loses valid rows of interleaved trips and shapes)", MinInstances: 7, Run: runRejectInert},
